@@ -449,9 +449,11 @@ class Tracker:
             died_now = getattr(self, 'died_now', 0)
             if nd != died_now:
                 fl = getattr(self, 'flipped_now', set())
-                latecause = bool(fl & self.late_pending) and (died_now - nd) == len(fl & self.late_pending)
+                # agents that died in this step but whose stamp is not this step: are they all late requests?
+                unrec = set(u for u in fl if o['tidead'][1][u] != str(ti))
+                latecause = bool(unrec) and unrec <= self.late_pending and nd == died_now - len(unrec)
                 self.bad('death-flow', f'{where}: new_deaths[{ti}]={nd} but {died_now} agents died in this step' +
-                         (f' ({len(fl & self.late_pending)} of them were requested after the death-resolution phase of step {ti - 1} and stamped {ti - 1})' if latecause else ''),
+                         (f' ({len(unrec)} of them were requested after the death-resolution phase of step {ti - 1} and stamped {ti - 1})' if latecause else ''),
                          cause='request-after-resolution' if latecause else 'other')
             self.late_pending -= getattr(self, 'flipped_now', set())
             self.last_nalive = na; self.created = 0; self.died = 0; self.died_now = 0; self.flipped_now = set()
